@@ -9,7 +9,7 @@ payload, between the frames of a list …) is an unexpected-EOF error, and the c
 before it are still delivered. Both flavours, every segmentation (via C02). The end is sticky
 (`C10_end_is_sticky`): once a call reported the end (clean, unexpected EOF, I/O error, invalid message)
 and the transport has nothing more, every further call reports the same — an unclean end never turns
-into a clean one (async connection, any builder state carried over from earlier calls).
+into a clean one (both connections, any builder state carried over from earlier calls).
 -/
 namespace Mpd.C10
 open Mpd Mpd.Parser Mpd.Builder Mpd.Conn Mpd.C03
@@ -134,6 +134,17 @@ theorem C10_end_is_sticky (extra : Nat) (σ : BState) (buf : Bytes) (term : Term
     (h : ∀ r, (recvLoopA σ buf [] term).1 ≠ .resp r) :
     sessionA (extra + 1) extra σ buf [] term = List.replicate (extra + 1) (recvLoopA σ buf [] term).1 :=
   sessionA_sticky extra σ buf term h
+
+/-- **the end is sticky** (blocking): the same for the blocking connection with its fixed, doubling
+buffer, for any buffer that is within its capacity (every buffer `recvLoopS` leaves is) -/
+theorem C10_end_is_sticky_blocking (extra : Nat) (σ : BState) (b : SBuf) (term : Term)
+    (hcap : ¬ b.cap < b.data.length) (h : ∀ r, (recvS σ b [] term).1 ≠ .resp r) :
+    sessionS (extra + 1) extra σ b [] term = List.replicate (extra + 1) (recvS σ b [] term).1 :=
+  sessionS_sticky extra σ b term hcap h
+
+example : sessionS 3 2 .initial { cap := DEFAULT_CAP, data := str "foo: bar\n" } [] .eof =
+    [.unexpectedEof, .unexpectedEof, .unexpectedEof] := by
+  decide +kernel
 
 /-- e.g. a stream that ended after a complete field line: unexpected EOF, three times in a row -/
 example : sessionA 3 2 .initial (str "foo: bar\n") [] .eof = [.unexpectedEof, .unexpectedEof, .unexpectedEof] := by
